@@ -102,6 +102,8 @@ def build(kind, text, variables, semantics=None, io_types=None, consts=None, sub
     spec.spec = text
     if parse:
         spec.parse()
+        if parse is not True and parse >= 2:
+            spec.parse()                # parsing again replaces the first result
         if pastify:
             spec.pastify()
     return spec
